@@ -2,7 +2,6 @@
 //! encoding of them the code can emit (plus hand-packed *legacy* encodings following the layouts
 //! documented in the `from_bytes_legacy` functions), each paired with the public decode entry
 //! points that accept that form.
-use std::collections::BTreeMap;
 use std::sync::Arc;
 
 use chrono::{DateTime, TimeZone, Utc};
@@ -11,28 +10,34 @@ use serde::{Deserialize, Serialize};
 use serde_json::Value;
 
 use mithril_common::crypto_helper::{
-    KesEvolutions, MKMapProof, MKProof, MKTreeStoreInMemory, OpCert, ProtocolAggregateVerificationKey,
-    ProtocolClerk, GenesisEd25519VerificationKey, ProtocolInitializer, ProtocolKey,
+    GenesisEd25519VerificationKey, KesEvolutions, MKMapProof, MKProof, MKTreeStoreInMemory, OpCert,
+    ProtocolAggregateVerificationKey, ProtocolClerk, ProtocolInitializer, ProtocolKey,
     ProtocolKeyCodec, ProtocolMkProof, ProtocolSingleSignature, TryFromBytes, TryToBytes,
 };
 use mithril_common::entities::{
-    BlockNumber, BlockRange, CardanoBlock, CardanoDbBeacon, CardanoTransaction, CardanoTransactionsSetProof, Certificate,
-    CertificateMetadata, CertificateSignature, Epoch, MkSetProof, ProtocolMessage, ProtocolMessagePartKey,
-    ProtocolParameters, SignedEntityType, Signer, SignerWithStake, SingleSignature as EntitySingleSignature, SlotNumber,
-    StakeDistribution,
+    BlockNumber, BlockRange, CardanoBlock, CardanoDbBeacon, CardanoTransaction,
+    CardanoTransactionsSetProof, Certificate, CertificateMetadata, CertificateSignature, Epoch,
+    MkSetProof, ProtocolMessage, ProtocolMessagePartKey, ProtocolParameters, SignedEntityType,
+    Signer, SignerWithStake, SingleSignature as EntitySingleSignature, SlotNumber,
 };
 use mithril_common::messages::{
-    CardanoBlocksProofsMessage, CardanoTransactionsProofsMessage, CardanoTransactionsProofsV2Message,
-    CardanoTransactionsSetProofMessagePart, CertificateMessage, MkSetProofMessagePart, RegisterSignatureMessageDmq,
-    RegisterSignatureMessageHttp, RegisterSignerMessage,
+    CardanoBlocksProofsMessage, CardanoTransactionsProofsMessage,
+    CardanoTransactionsProofsV2Message, CardanoTransactionsSetProofMessagePart, CertificateMessage,
+    MkSetProofMessagePart, RegisterSignatureMessageDmq, RegisterSignatureMessageHttp,
+    RegisterSignerMessage,
 };
-use mithril_common::test::builder::{MithrilFixture, MithrilFixtureBuilder, StakeDistributionGenerationMethod};
+use mithril_common::test::builder::{
+    MithrilFixture, MithrilFixtureBuilder, StakeDistributionGenerationMethod,
+};
 use mithril_common::test::crypto_helper::MKProofTestExtension;
 use mithril_common::test::double::{Dummy, fake_keys};
-use mithril_common::test::entities_extensions::{CardanoTransactionsSetProofTestExtension, MkSetProofTestExtension};
+use mithril_common::test::entities_extensions::{
+    CardanoTransactionsSetProofTestExtension, MkSetProofTestExtension,
+};
 use mithril_stm::{
-    KeyRegistration, RegistrationEntry, AggregateSignature, AggregateSignatureType, AggregateVerificationKeyForConcatenation, AncillaryProofInput, Initializer,
-    MithrilMembershipDigest, Parameters, SingleSignature, SingleSignatureWithRegisteredParty,
+    AggregateSignature, AggregateSignatureType, AggregateVerificationKeyForConcatenation,
+    AncillaryProofInput, Initializer, KeyRegistration, MithrilMembershipDigest, Parameters,
+    RegistrationEntry, SingleSignature, SingleSignatureWithRegisteredParty,
     VerificationKeyForConcatenation, VerificationKeyProofOfPossessionForConcatenation,
 };
 use sim_core::Rng;
@@ -67,7 +72,10 @@ impl HonestCfg {
             k,
             m: rng.range(k * 3 + 2, k * 3 + 20),
             phi_f: [0.65, 0.8, 0.9, 0.95][rng.index(4)],
-            epoch: { let bits = rng.range(2, 40); rng.range(2, 1 << bits) },
+            epoch: {
+                let bits = rng.range(2, 40);
+                rng.range(2, 1 << bits)
+            },
             tx_leaves: rng.range(1, 9) as usize,
             block_leaves: rng.range(1, 6) as usize,
             certified_signers: rng.range(2, 4) as usize,
@@ -115,6 +123,7 @@ impl Encoding {
 }
 
 pub struct HonestSet {
+    #[allow(dead_code)]
     pub cfg: HonestCfg,
     pub encodings: Vec<Encoding>,
 }
@@ -233,7 +242,11 @@ where
 // hot offsets for derived forms
 
 fn hot_of_bytes(bytes: &[u8]) -> Vec<usize> {
-    if bytes.first() == Some(&1) { cbor::hot_offsets(bytes) } else { (0..bytes.len().min(16)).collect() }
+    if bytes.first() == Some(&1) {
+        cbor::hot_offsets(bytes)
+    } else {
+        (0..bytes.len().min(16)).collect()
+    }
 }
 
 fn hot_hex(hot_bin: &[usize]) -> Vec<usize> {
@@ -270,8 +283,12 @@ fn hot_in_doc(doc: &[u8], needles: &[&str], n: usize) -> Vec<usize> {
 
 /// offsets of the structural characters of a JSON text (at most 256, evenly thinned)
 fn json_structural(doc: &[u8]) -> Vec<usize> {
-    let all: Vec<usize> =
-        doc.iter().enumerate().filter(|(_, c)| b"[]{}\":".contains(c)).map(|(i, _)| i).collect();
+    let all: Vec<usize> = doc
+        .iter()
+        .enumerate()
+        .filter(|(_, c)| b"[]{}\":".contains(c))
+        .map(|(i, _)| i)
+        .collect();
     if all.len() <= 256 {
         return all;
     }
@@ -317,7 +334,11 @@ fn json_bytes(v: &Value) -> Vec<u8> {
 }
 
 fn json_u64s(v: &Value) -> Vec<u64> {
-    v.as_array().expect("u64 array").iter().map(|x| x.as_u64().expect("u64")).collect()
+    v.as_array()
+        .expect("u64 array")
+        .iter()
+        .map(|x| x.as_u64().expect("u64"))
+        .collect()
 }
 
 /// `nr_indexes | indexes.. | sigma(48) | signer_index`
@@ -352,7 +373,12 @@ fn legacy_sig_reg(sig_reg_json: &Value) -> Packed {
 /// `len_v | len_i | values(32 each) | indices`
 fn legacy_batch_path(bp_json: &Value) -> Packed {
     let mut p = Packed::default();
-    let values: Vec<Vec<u8>> = bp_json["values"].as_array().expect("values").iter().map(json_bytes).collect();
+    let values: Vec<Vec<u8>> = bp_json["values"]
+        .as_array()
+        .expect("values")
+        .iter()
+        .map(json_bytes)
+        .collect();
     let indices = json_u64s(&bp_json["indices"]);
     p.u64_field(values.len() as u64);
     p.u64_field(indices.len() as u64);
@@ -389,7 +415,11 @@ fn legacy_aggregate_signature(agg_json: &Value) -> Packed {
 /// `nr_leaves | root | total_stake`
 fn legacy_avk(avk_json: &Value) -> Packed {
     let mut p = Packed::default();
-    p.u64_field(avk_json["mt_commitment"]["nr_leaves"].as_u64().expect("nr_leaves"));
+    p.u64_field(
+        avk_json["mt_commitment"]["nr_leaves"]
+            .as_u64()
+            .expect("nr_leaves"),
+    );
     p.raw(&json_bytes(&avk_json["mt_commitment"]["root"]));
     p.u64_field(avk_json["total_stake"].as_u64().expect("total_stake"));
     p
@@ -411,7 +441,14 @@ pub struct Builder {
 }
 
 impl Builder {
-    fn push(&mut self, ty: &'static str, form: &'static str, bytes: Vec<u8>, hot: Vec<usize>, entries: Vec<Entry>) {
+    fn push(
+        &mut self,
+        ty: &'static str,
+        form: &'static str,
+        bytes: Vec<u8>,
+        hot: Vec<usize>,
+        entries: Vec<Entry>,
+    ) {
         self.push_scoped(ty, form, bytes, hot, entries, true)
     }
 
@@ -430,16 +467,40 @@ impl Builder {
         hot.retain(|h| *h < bytes.len());
         hot.sort_unstable();
         hot.dedup();
-        assert!(bytes.len() < (1 << 16), "{ty}/{form}: honest encoding of {} bytes exceeds the 64 KiB bound", bytes.len());
-        self.encs.push(Encoding { ty, form, bytes, hot, entries, in_statement });
+        assert!(
+            bytes.len() < (1 << 16),
+            "{ty}/{form}: honest encoding of {} bytes exceeds the 64 KiB bound",
+            bytes.len()
+        );
+        self.encs.push(Encoding {
+            ty,
+            form,
+            bytes,
+            hot,
+            entries,
+            in_statement,
+        });
     }
 
     /// All forms of a type that has the binary (`TryToBytes`/`TryFromBytes`) and JSON codecs and
     /// is wrapped in `ProtocolKey` somewhere. `codec`: the type implements `ProtocolKeyCodec`
     /// (`TryFrom<&str>` and serde `Deserialize` of the wrapper exist).
-    fn protocol_key_forms<T>(&mut self, ty: &'static str, v: &T, legacy: Option<Packed>, in_statement: bool)
-    where
-        T: Same + Clone + Send + Sync + Serialize + DeserializeOwned + TryToBytes + TryFromBytes + 'static,
+    fn protocol_key_forms<T>(
+        &mut self,
+        ty: &'static str,
+        v: &T,
+        legacy: Option<Packed>,
+        in_statement: bool,
+    ) where
+        T: Same
+            + Clone
+            + Send
+            + Sync
+            + Serialize
+            + DeserializeOwned
+            + TryToBytes
+            + TryFromBytes
+            + 'static,
     {
         let bytes = v.to_bytes_vec().expect("honest value encodes to bytes");
         let hot = hot_of_bytes(&bytes);
@@ -449,24 +510,61 @@ impl Builder {
         };
         let bin_entries = |v: &T| {
             vec![
-                Entry { name: "TryFromBytes::try_from_bytes", dec: dec_bytes(v, |b| T::try_from_bytes(b)), route: r_bin },
+                Entry {
+                    name: "TryFromBytes::try_from_bytes",
+                    dec: dec_bytes(v, |b| T::try_from_bytes(b)),
+                    route: r_bin,
+                },
                 Entry {
                     name: "ProtocolKey::from_bytes",
-                    dec: dec_bytes(&ProtocolKey::new(v.clone()), |b| ProtocolKey::<T>::from_bytes(b)), route: r_bin },
+                    dec: dec_bytes(&ProtocolKey::new(v.clone()), |b| {
+                        ProtocolKey::<T>::from_bytes(b)
+                    }),
+                    route: r_bin,
+                },
             ]
         };
         let hex_entries = |v: &T| {
             vec![
-                Entry { name: "TryFromBytes::try_from_bytes_hex", dec: dec_str(v, |s| T::try_from_bytes_hex(s)), route: r_hex },
+                Entry {
+                    name: "TryFromBytes::try_from_bytes_hex",
+                    dec: dec_str(v, |s| T::try_from_bytes_hex(s)),
+                    route: r_hex,
+                },
                 Entry {
                     name: "ProtocolKey::from_bytes_hex",
-                    dec: dec_str(&ProtocolKey::new(v.clone()), |s| ProtocolKey::<T>::from_bytes_hex(s)), route: r_hex },
+                    dec: dec_str(&ProtocolKey::new(v.clone()), |s| {
+                        ProtocolKey::<T>::from_bytes_hex(s)
+                    }),
+                    route: r_hex,
+                },
             ]
         };
-        self.push_scoped(ty, "bytes", bytes.clone(), hot.clone(), bin_entries(v), in_statement);
-        self.push_scoped(ty, "bytes-hex", hex::encode(&bytes).into_bytes(), hot_hex(&hot), hex_entries(v), in_statement);
+        self.push_scoped(
+            ty,
+            "bytes",
+            bytes.clone(),
+            hot.clone(),
+            bin_entries(v),
+            in_statement,
+        );
+        self.push_scoped(
+            ty,
+            "bytes-hex",
+            hex::encode(&bytes).into_bytes(),
+            hot_hex(&hot),
+            hex_entries(v),
+            in_statement,
+        );
         if let Some(p) = legacy {
-            self.push_scoped(ty, "legacy", p.bytes.clone(), p.fields.clone(), bin_entries(v), in_statement);
+            self.push_scoped(
+                ty,
+                "legacy",
+                p.bytes.clone(),
+                p.fields.clone(),
+                bin_entries(v),
+                in_statement,
+            );
             self.push_scoped(
                 ty,
                 "legacy-hex",
@@ -476,7 +574,8 @@ impl Builder {
                 in_statement,
             );
         }
-        let json_hex = ProtocolKey::<T>::key_to_json_hex(v).expect("honest value encodes to JSON hex");
+        let json_hex =
+            ProtocolKey::<T>::key_to_json_hex(v).expect("honest value encodes to JSON hex");
         self.push_scoped(
             ty,
             "json-hex",
@@ -484,7 +583,11 @@ impl Builder {
             (0..64).collect(),
             vec![Entry {
                 name: "ProtocolKey::from_json_hex",
-                dec: dec_str(&ProtocolKey::new(v.clone()), |s| ProtocolKey::<T>::from_json_hex(s)), route: Route::None }],
+                dec: dec_str(&ProtocolKey::new(v.clone()), |s| {
+                    ProtocolKey::<T>::from_json_hex(s)
+                }),
+                route: Route::None,
+            }],
             in_statement,
         );
         let json = serde_json::to_vec(v).expect("honest value encodes to JSON");
@@ -493,7 +596,11 @@ impl Builder {
             "json",
             json,
             vec![],
-            vec![Entry { name: "serde_json::from_slice", dec: dec_bytes(v, |b| serde_json::from_slice::<T>(b)), route: Route::None }],
+            vec![Entry {
+                name: "serde_json::from_slice",
+                dec: dec_bytes(v, |b| serde_json::from_slice::<T>(b)),
+                route: Route::None,
+            }],
             in_statement,
         );
     }
@@ -502,11 +609,24 @@ impl Builder {
     /// for every text form of the type.
     fn protocol_key_codec_forms<T>(&mut self, ty: &'static str, v: &T, legacy: Option<&Packed>)
     where
-        T: Same + Clone + Send + Sync + Serialize + DeserializeOwned + TryToBytes + TryFromBytes + ProtocolKeyCodec<T> + 'static,
+        T: Same
+            + Clone
+            + Send
+            + Sync
+            + Serialize
+            + DeserializeOwned
+            + TryToBytes
+            + TryFromBytes
+            + ProtocolKeyCodec<T>
+            + 'static,
     {
         let key = ProtocolKey::new(v.clone());
         let mut texts: Vec<(&'static str, String, Vec<usize>)> = vec![
-            ("codec:json-hex", key.to_json_hex().expect("json hex"), (0..64).collect()),
+            (
+                "codec:json-hex",
+                key.to_json_hex().expect("json hex"),
+                (0..64).collect(),
+            ),
             (
                 "codec:bytes-hex",
                 key.to_bytes_hex().expect("bytes hex"),
@@ -514,7 +634,11 @@ impl Builder {
             ),
         ];
         if let Some(p) = legacy {
-            texts.push(("codec:legacy-hex", hex::encode(&p.bytes), hot_hex(&p.fields)));
+            texts.push((
+                "codec:legacy-hex",
+                hex::encode(&p.bytes),
+                hot_hex(&p.fields),
+            ));
         }
         for (form, text, hot) in texts {
             self.push(
@@ -524,7 +648,12 @@ impl Builder {
                 hot.clone(),
                 vec![Entry {
                     name: "ProtocolKey::try_from(&str)",
-                    dec: dec_str(&key, |s| ProtocolKey::<T>::try_from(s)), route: match kind_of(ty) { Kind::Other => Route::None, k => Route::Str(k) } }],
+                    dec: dec_str(&key, |s| ProtocolKey::<T>::try_from(s)),
+                    route: match kind_of(ty) {
+                        Kind::Other => Route::None,
+                        k => Route::Str(k),
+                    },
+                }],
             );
             // the same string as a JSON document (what serde sees inside a message)
             let doc = serde_json::to_vec(&text).expect("json string");
@@ -540,7 +669,12 @@ impl Builder {
                 hot.iter().map(|h| h + 1).collect(),
                 vec![Entry {
                     name: "serde_json::from_slice::<ProtocolKey>",
-                    dec: dec_bytes(&key, |b| serde_json::from_slice::<ProtocolKey<T>>(b)), route: match kind_of(ty) { Kind::Other => Route::None, k => Route::StrDoc(k) } }],
+                    dec: dec_bytes(&key, |b| serde_json::from_slice::<ProtocolKey<T>>(b)),
+                    route: match kind_of(ty) {
+                        Kind::Other => Route::None,
+                        k => Route::StrDoc(k),
+                    },
+                }],
             );
         }
     }
@@ -549,7 +683,14 @@ impl Builder {
     /// whose value is not known to the harness (fault-free decode must succeed)
     fn golden_strings<T>(&mut self, ty: &'static str, form: &'static str, strings: &[&str])
     where
-        T: Serialize + DeserializeOwned + TryToBytes + TryFromBytes + ProtocolKeyCodec<T> + Send + Sync + 'static,
+        T: Serialize
+            + DeserializeOwned
+            + TryToBytes
+            + TryFromBytes
+            + ProtocolKeyCodec<T>
+            + Send
+            + Sync
+            + 'static,
     {
         if let Some(s) = strings.first() {
             self.push(
@@ -562,7 +703,12 @@ impl Builder {
                     dec: dec_with(|b| {
                         let s = String::from_utf8_lossy(b);
                         ProtocolKey::<T>::try_from(&*s).map(|_| true).map_err(short)
-                    }), route: match kind_of(ty) { Kind::Other => Route::None, k => Route::Str(k) } }],
+                    }),
+                    route: match kind_of(ty) {
+                        Kind::Other => Route::None,
+                        k => Route::Str(k),
+                    },
+                }],
             );
         }
     }
@@ -571,7 +717,9 @@ impl Builder {
 fn fixed_time(seed: u64, offset_s: i64) -> DateTime<Utc> {
     // a fixed, seed-derived instant: wall-clock time must not enter honest encodings
     let base = 1_600_000_000i64 + (seed % 100_000_000) as i64;
-    Utc.timestamp_opt(base + offset_s, ((seed >> 32) % 1_000_000_000) as u32).single().expect("valid time")
+    Utc.timestamp_opt(base + offset_s, ((seed >> 32) % 1_000_000_000) as u32)
+        .single()
+        .expect("valid time")
 }
 
 /// The mithril-common fixture: certified signers (operational certificate + KES signature;
@@ -580,9 +728,16 @@ fn certified_fixture(cfg: &HonestCfg) -> MithrilFixture {
     let mut seed = [0u8; 32];
     seed[..8].copy_from_slice(&cfg.seed.to_le_bytes());
     MithrilFixtureBuilder::default()
-        .with_protocol_parameters(ProtocolParameters { k: cfg.k, m: cfg.m, phi_f: cfg.phi_f })
+        .with_protocol_parameters(ProtocolParameters {
+            k: cfg.k,
+            m: cfg.m,
+            phi_f: cfg.phi_f,
+        })
         .with_signers(cfg.certified_signers)
-        .with_stake_distribution(StakeDistributionGenerationMethod::RandomDistribution { seed, min_stake: 1 + cfg.seed % 1000 })
+        .with_stake_distribution(StakeDistributionGenerationMethod::RandomDistribution {
+            seed,
+            min_stake: 1 + cfg.seed % 1000,
+        })
         .build()
 }
 
@@ -603,16 +758,28 @@ fn stm_values(cfg: &HonestCfg) -> StmValues {
     seed[8] = 0x57;
     let mut chacha = rand_chacha::ChaCha20Rng::from_seed(seed);
     let mut rng = Rng::new(cfg.seed ^ 0x51f1);
-    let params = Parameters { k: cfg.k, m: cfg.m, phi_f: cfg.phi_f };
-    let initializers: Vec<Initializer> =
-        (0..cfg.signers).map(|_| Initializer::new(params, rng.range(1, 1_000_000), &mut chacha)).collect();
+    let params = Parameters {
+        k: cfg.k,
+        m: cfg.m,
+        phi_f: cfg.phi_f,
+    };
+    let initializers: Vec<Initializer> = (0..cfg.signers)
+        .map(|_| Initializer::new(params, rng.range(1, 1_000_000), &mut chacha))
+        .collect();
     let mut registration = KeyRegistration::initialize();
     for init in &initializers {
-        let entry = RegistrationEntry::new(init.get_verification_key_proof_of_possession_for_concatenation(), init.stake)
-            .expect("honest registration entry");
-        registration.register_by_entry(&entry).expect("honest registration");
+        let entry = RegistrationEntry::new(
+            init.get_verification_key_proof_of_possession_for_concatenation(),
+            init.stake,
+        )
+        .expect("honest registration entry");
+        registration
+            .register_by_entry(&entry)
+            .expect("honest registration");
     }
-    let closed = registration.close_registration(&params).expect("close registration");
+    let closed = registration
+        .close_registration(&params)
+        .expect("close registration");
     let vk_pop = initializers[0].get_verification_key_proof_of_possession_for_concatenation();
     let signers: Vec<mithril_stm::Signer<D>> = initializers
         .into_iter()
@@ -621,7 +788,10 @@ fn stm_values(cfg: &HonestCfg) -> StmValues {
     let clerk = mithril_stm::Clerk::<D>::new_clerk_from_closed_key_registration(&params, &closed);
     for attempt in 0..256u64 {
         let msg = format!("message-{:x}-{attempt}", cfg.seed);
-        let sigs: Vec<SingleSignature> = signers.iter().filter_map(|s| s.sign(msg.as_bytes())).collect();
+        let sigs: Vec<SingleSignature> = signers
+            .iter()
+            .filter_map(|s| s.sign(msg.as_bytes()))
+            .collect();
         if sigs.is_empty() {
             continue;
         }
@@ -631,8 +801,17 @@ fn stm_values(cfg: &HonestCfg) -> StmValues {
             AggregateSignatureType::Concatenation,
             AncillaryProofInput::dummy(),
         ) {
-            let avk = clerk.compute_aggregate_verification_key().to_concatenation_aggregate_verification_key().clone();
-            return StmValues { params, sigs, agg, vk_pop, avk };
+            let avk = clerk
+                .compute_aggregate_verification_key()
+                .to_concatenation_aggregate_verification_key()
+                .clone();
+            return StmValues {
+                params,
+                sigs,
+                agg,
+                vk_pop,
+                avk,
+            };
         }
     }
     panic!("honest STM aggregation did not succeed for any of 256 messages (cfg {cfg:?})");
@@ -640,8 +819,14 @@ fn stm_values(cfg: &HonestCfg) -> StmValues {
 
 fn protocol_message(cfg: &HonestCfg, attempt: u64) -> ProtocolMessage {
     let mut m = ProtocolMessage::new();
-    m.set_message_part(ProtocolMessagePartKey::SnapshotDigest, format!("digest-{:x}-{attempt}", cfg.seed));
-    m.set_message_part(ProtocolMessagePartKey::NextAggregateVerificationKey, format!("next-avk-{:x}", cfg.seed >> 7));
+    m.set_message_part(
+        ProtocolMessagePartKey::SnapshotDigest,
+        format!("digest-{:x}-{attempt}", cfg.seed),
+    );
+    m.set_message_part(
+        ProtocolMessagePartKey::NextAggregateVerificationKey,
+        format!("next-avk-{:x}", cfg.seed >> 7),
+    );
     m.set_message_part(ProtocolMessagePartKey::CurrentEpoch, cfg.epoch.to_string());
     m
 }
@@ -651,7 +836,13 @@ impl HonestSet {
     /// material into (the process' `TMPDIR` already points there).
     pub fn build(cfg: &HonestCfg) -> HonestSet {
         let mut b = Builder { encs: Vec::new() };
-        let StmValues { params, sigs: stm_sigs, agg, vk_pop, avk: avk_c } = stm_values(cfg);
+        let StmValues {
+            params,
+            sigs: stm_sigs,
+            agg,
+            vk_pop,
+            avk: avk_c,
+        } = stm_values(cfg);
 
         // ---- mithril-common level: certified fixture; retry the message until k indices are won
         let fixture = certified_fixture(cfg);
@@ -661,8 +852,10 @@ impl HonestSet {
         for attempt in 0..256 {
             let message = protocol_message(cfg, attempt);
             let signed_message = message.compute_hash();
-            let sigs: Vec<SingleSignature> =
-                signers.iter().filter_map(|s| s.protocol_signer.sign(signed_message.as_bytes())).collect();
+            let sigs: Vec<SingleSignature> = signers
+                .iter()
+                .filter_map(|s| s.protocol_signer.sign(signed_message.as_bytes()))
+                .collect();
             if sigs.is_empty() {
                 continue;
             }
@@ -676,7 +869,8 @@ impl HonestSet {
                 break;
             }
         }
-        let (message, certificate_agg) = found.expect("honest aggregation succeeds for one of 256 messages");
+        let (message, certificate_agg) =
+            found.expect("honest aggregation succeeds for one of 256 messages");
         let entity_sigs: Vec<EntitySingleSignature> = fixture.sign_all(&message);
         let agg_json = serde_json::to_value(&agg).expect("aggregate signature to JSON");
 
@@ -686,19 +880,33 @@ impl HonestSet {
         let sig_legacy = legacy_single_signature(&sig_json);
         b.protocol_key_forms("SingleSignature", &sig, Some(sig_legacy.clone()), true);
         b.protocol_key_codec_forms("SingleSignature", &sig, Some(&sig_legacy));
-        b.golden_strings::<SingleSignature>("SingleSignature", "golden-string", &fake_keys::single_signature());
+        b.golden_strings::<SingleSignature>(
+            "SingleSignature",
+            "golden-string",
+            &fake_keys::single_signature(),
+        );
 
         // SingleSignatureWithRegisteredParty (taken out of the aggregate through the repo's own serde)
         let sig_reg_json = agg_json["signatures"][0].clone();
         let sig_reg: SingleSignatureWithRegisteredParty =
-            serde_json::from_value(sig_reg_json.clone()).expect("signature with registered party from JSON");
-        b.protocol_key_forms("SingleSignatureWithRegisteredParty", &sig_reg, Some(legacy_sig_reg(&sig_reg_json)), true);
+            serde_json::from_value(sig_reg_json.clone())
+                .expect("signature with registered party from JSON");
+        b.protocol_key_forms(
+            "SingleSignatureWithRegisteredParty",
+            &sig_reg,
+            Some(legacy_sig_reg(&sig_reg_json)),
+            true,
+        );
 
         // AggregateSignature (ConcatenationProof, MerkleBatchPath, registration entries inside)
         let agg_legacy = legacy_aggregate_signature(&agg_json);
         b.protocol_key_forms("AggregateSignature", &agg, Some(agg_legacy.clone()), true);
         b.protocol_key_codec_forms("AggregateSignature", &agg, Some(&agg_legacy));
-        b.golden_strings::<AggregateSignature<D>>("AggregateSignature", "golden-string", &fake_keys::multi_signature());
+        b.golden_strings::<AggregateSignature<D>>(
+            "AggregateSignature",
+            "golden-string",
+            &fake_keys::multi_signature(),
+        );
 
         // verification keys
         b.protocol_key_forms("VerificationKeyProofOfPossession", &vk_pop, None, true);
@@ -715,7 +923,12 @@ impl HonestSet {
         let avk: ProtocolAggregateVerificationKey = fixture.compute_aggregate_verification_key();
         let avk_json = serde_json::to_value(&avk_c).expect("avk to JSON");
         let avk_legacy = legacy_avk(&avk_json);
-        b.protocol_key_forms("AggregateVerificationKey", &avk_c, Some(avk_legacy.clone()), true);
+        b.protocol_key_forms(
+            "AggregateVerificationKey",
+            &avk_c,
+            Some(avk_legacy.clone()),
+            true,
+        );
         b.protocol_key_codec_forms("AggregateVerificationKey", &avk_c, Some(&avk_legacy));
         b.golden_strings::<AggregateVerificationKeyForConcatenation<D>>(
             "AggregateVerificationKey",
@@ -724,14 +937,28 @@ impl HonestSet {
         );
 
         // protocol parameters
-        b.protocol_key_forms("Parameters", &params, Some(legacy_parameters(&params)), true);
+        b.protocol_key_forms(
+            "Parameters",
+            &params,
+            Some(legacy_parameters(&params)),
+            true,
+        );
 
         // ---- certified signers: operational certificate, KES signature, registration message
-        let csigner: SignerWithStake = fixture.signers_with_stake()[cfg.certified_signers - 1].clone();
-        let opcert: OpCert = csigner.operational_certificate.clone().expect("certified signer has an opcert").into_inner();
+        let csigner: SignerWithStake =
+            fixture.signers_with_stake()[cfg.certified_signers - 1].clone();
+        let opcert: OpCert = csigner
+            .operational_certificate
+            .clone()
+            .expect("certified signer has an opcert")
+            .into_inner();
         b.protocol_key_forms("OpCert", &opcert, None, true);
         b.protocol_key_codec_forms("OpCert", &opcert, None);
-        b.golden_strings::<OpCert>("OpCert", "golden-string", &fake_keys::operational_certificate());
+        b.golden_strings::<OpCert>(
+            "OpCert",
+            "golden-string",
+            &fake_keys::operational_certificate(),
+        );
         let kes_sig = csigner
             .verification_key_signature_for_concatenation
             .clone()
@@ -762,7 +989,10 @@ impl HonestSet {
                 .verification_key_signature_for_concatenation
                 .as_ref()
                 .map(|s| s.to_json_hex().expect("kes sig json hex")),
-            operational_certificate: csigner.operational_certificate.as_ref().map(|o| o.to_json_hex().expect("opcert")),
+            operational_certificate: csigner
+                .operational_certificate
+                .as_ref()
+                .map(|o| o.to_json_hex().expect("opcert")),
             kes_evolutions: Some(KesEvolutions(cfg.seed % 60)),
         };
         b.register_signer_message(&register_signer);
@@ -770,7 +1000,8 @@ impl HonestSet {
         // ---- single signature entity / registration messages
         let esig = entity_sigs[0].clone();
         b.json_entity_by_reencoding("entities::SingleSignature", &esig);
-        let signed_entity_type = SignedEntityType::CardanoDatabase(CardanoDbBeacon::new(cfg.epoch, cfg.seed % 10_000));
+        let signed_entity_type =
+            SignedEntityType::CardanoDatabase(CardanoDbBeacon::new(cfg.epoch, cfg.seed % 10_000));
         let register_signature = RegisterSignatureMessageHttp {
             signed_entity_type: signed_entity_type.clone().into(),
             party_id: esig.party_id.clone(),
@@ -779,7 +1010,10 @@ impl HonestSet {
             signed_message: message.compute_hash(),
         };
         b.register_signature_message(&register_signature);
-        let dmq = RegisterSignatureMessageDmq { signed_entity_type: signed_entity_type.clone().into(), signature: esig.signature.clone() };
+        let dmq = RegisterSignatureMessageDmq {
+            signed_entity_type: signed_entity_type.clone().into(),
+            signature: esig.signature.clone(),
+        };
         b.dmq_message(&dmq);
         b.signed_entity_type(&signed_entity_type);
 
@@ -798,7 +1032,10 @@ impl HonestSet {
             metadata.clone(),
             message.clone(),
             avk.clone(),
-            CertificateSignature::MultiSignature(signed_entity_type.clone(), certificate_agg.clone().into()),
+            CertificateSignature::MultiSignature(
+                signed_entity_type.clone(),
+                certificate_agg.clone().into(),
+            ),
             None,
             None,
         )
@@ -812,10 +1049,16 @@ impl HonestSet {
             let s: ed25519_dalek::Signature = (**sig).clone();
             b.protocol_key_forms("GenesisSignature", &s, None, true);
             b.protocol_key_codec_forms("GenesisSignature", &s, None);
-            b.golden_strings::<ed25519_dalek::Signature>("GenesisSignature", "golden-string", &fake_keys::genesis_signature());
+            b.golden_strings::<ed25519_dalek::Signature>(
+                "GenesisSignature",
+                "golden-string",
+                &fake_keys::genesis_signature(),
+            );
         }
         let gvk_text = fake_keys::genesis_verification_key()[0];
-        let gvk: GenesisEd25519VerificationKey = gvk_text.try_into().expect("genesis verification key fixture");
+        let gvk: GenesisEd25519VerificationKey = gvk_text
+            .try_into()
+            .expect("genesis verification key fixture");
         let gvk_inner: ed25519_dalek::VerifyingKey = *gvk;
         b.protocol_key_forms("GenesisVerificationKey", &gvk_inner, None, true);
         b.protocol_key_codec_forms("GenesisVerificationKey", &gvk_inner, None);
@@ -823,7 +1066,9 @@ impl HonestSet {
 
         // ---- Merkle proofs
         let mut rng = Rng::new(cfg.seed ^ 0x77aa);
-        let leaves: Vec<String> = (0..cfg.tx_leaves + 1).map(|i| format!("leaf-{:x}-{i}", rng.next_u64())).collect();
+        let leaves: Vec<String> = (0..cfg.tx_leaves + 1)
+            .map(|i| format!("leaf-{:x}-{i}", rng.next_u64()))
+            .collect();
         let mk_proof = MKProof::from_leaves(&leaves).expect("MKProof");
         b.mk_proof(&mk_proof);
         b.protocol_key_codec_forms("MKProof", &mk_proof, None);
@@ -836,11 +1081,17 @@ impl HonestSet {
                 (BlockNumber(block), format!("tx-{:x}-{i}", rng.next_u64()))
             })
             .collect();
-        let set_proof = CardanoTransactionsSetProof::from_leaves::<MKTreeStoreInMemory>(&tx_leaves).expect("set proof");
-        let set_proof_part: CardanoTransactionsSetProofMessagePart = set_proof.clone().try_into().expect("set proof message part");
+        let set_proof = CardanoTransactionsSetProof::from_leaves::<MKTreeStoreInMemory>(&tx_leaves)
+            .expect("set proof");
+        let set_proof_part: CardanoTransactionsSetProofMessagePart = set_proof
+            .clone()
+            .try_into()
+            .expect("set proof message part");
         // the entity keeps its proof private: take it back out of the message part the real code emitted
         let map_proof: MKMapProof<BlockRange> =
-            ProtocolMkProof::from_json_hex(&set_proof_part.proof).expect("honest proof decodes").into_inner();
+            ProtocolMkProof::from_json_hex(&set_proof_part.proof)
+                .expect("honest proof decodes")
+                .into_inner();
         b.mk_map_proof(&map_proof);
         let proofs_v1 = CardanoTransactionsProofsMessage::new(
             &certificate.hash,
@@ -863,7 +1114,8 @@ impl HonestSet {
                 )
             })
             .collect();
-        let tx_proof = MkSetProof::<CardanoTransaction>::from_leaves::<MKTreeStoreInMemory>(&txs).expect("tx proof v2");
+        let tx_proof = MkSetProof::<CardanoTransaction>::from_leaves::<MKTreeStoreInMemory>(&txs)
+            .expect("tx proof v2");
         let proofs_v2 = CardanoTransactionsProofsV2Message::new(
             &certificate.hash,
             Some(tx_proof.try_into().expect("tx proof part")),
@@ -878,10 +1130,15 @@ impl HonestSet {
         let blocks: Vec<CardanoBlock> = (0..cfg.block_leaves)
             .map(|_| {
                 block += rng.range(1, 40);
-                CardanoBlock::new(format!("block_hash-{:x}", rng.next_u64()), BlockNumber(block), SlotNumber(block * 20))
+                CardanoBlock::new(
+                    format!("block_hash-{:x}", rng.next_u64()),
+                    BlockNumber(block),
+                    SlotNumber(block * 20),
+                )
             })
             .collect();
-        let block_proof = MkSetProof::<CardanoBlock>::from_leaves::<MKTreeStoreInMemory>(&blocks).expect("block proof");
+        let block_proof = MkSetProof::<CardanoBlock>::from_leaves::<MKTreeStoreInMemory>(&blocks)
+            .expect("block proof");
         let proofs_blocks = CardanoBlocksProofsMessage::new(
             &certificate.hash,
             Some(block_proof.try_into().expect("block proof part")),
@@ -895,7 +1152,10 @@ impl HonestSet {
         let initializer: ProtocolInitializer = signers[0].protocol_initializer.clone();
         b.initializer(&initializer);
 
-        HonestSet { cfg: cfg.clone(), encodings: b.encs }
+        HonestSet {
+            cfg: cfg.clone(),
+            encodings: b.encs,
+        }
     }
 }
 
@@ -925,7 +1185,13 @@ impl Builder {
             hot,
             vec![Entry {
                 name: "serde_json::from_slice",
-                dec: dec_with(move |b| serde_json::from_slice::<T>(b).map(|d| d == honest).map_err(short)), route: Route::None }],
+                dec: dec_with(move |b| {
+                    serde_json::from_slice::<T>(b)
+                        .map(|d| d == honest)
+                        .map_err(short)
+                }),
+                route: Route::None,
+            }],
         );
     }
 
@@ -945,7 +1211,13 @@ impl Builder {
             hot,
             vec![Entry {
                 name: "serde_json::from_slice",
-                dec: dec_with(move |b| serde_json::from_slice::<T>(b).map(|d| to_value(&d) == honest).map_err(short)), route: Route::None }],
+                dec: dec_with(move |b| {
+                    serde_json::from_slice::<T>(b)
+                        .map(|d| to_value(&d) == honest)
+                        .map_err(short)
+                }),
+                route: Route::None,
+            }],
         );
     }
 
@@ -965,17 +1237,24 @@ impl Builder {
                 Entry {
                     name: "serde_json::from_slice",
                     dec: dec_with(move |b| {
-                        serde_json::from_slice::<RegisterSignerMessage>(b).map(|d| d == honest).map_err(short)
-                    }), route: Route::None },
+                        serde_json::from_slice::<RegisterSignerMessage>(b)
+                            .map(|d| d == honest)
+                            .map_err(short)
+                    }),
+                    route: Route::None,
+                },
                 Entry {
                     // what mithril-aggregator's FromRegisterSignerAdapter does with the message
                     name: "serde_json::from_slice + ProtocolKey::try_from(String) per key field",
                     dec: dec_with(move |b| {
-                        let d = serde_json::from_slice::<RegisterSignerMessage>(b).map_err(short)?;
+                        let d =
+                            serde_json::from_slice::<RegisterSignerMessage>(b).map_err(short)?;
                         let signer = signer_from_message(d.clone()).map_err(short)?;
                         let back = message_from_signer(d.epoch, &signer).map_err(short)?;
                         Ok(d == honest2 && back == honest2)
-                    }), route: Route::None },
+                    }),
+                    route: Route::None,
+                },
             ],
         );
     }
@@ -993,11 +1272,15 @@ impl Builder {
                 // FromRegisterSingleSignatureAdapter: signature string -> ProtocolSingleSignature
                 name: "serde_json::from_slice + ProtocolSingleSignature::try_from(String)",
                 dec: dec_with(move |b| {
-                    let d = serde_json::from_slice::<RegisterSignatureMessageHttp>(b).map_err(short)?;
-                    let sig: ProtocolSingleSignature = d.signature.clone().try_into().map_err(short)?;
+                    let d =
+                        serde_json::from_slice::<RegisterSignatureMessageHttp>(b).map_err(short)?;
+                    let sig: ProtocolSingleSignature =
+                        d.signature.clone().try_into().map_err(short)?;
                     let same_sig = sig.to_json_hex().map_err(short)? == honest.signature;
                     Ok(d == honest && same_sig)
-                }), route: Route::None }],
+                }),
+                route: Route::None,
+            }],
         );
     }
 
@@ -1009,7 +1292,11 @@ impl Builder {
         hot.extend(2..2 + set_len.min(24));
         hot.extend(2 + set_len..2 + set_len + 4);
         let sig_at = 2 + set_len + 4;
-        hot.extend(hot_of_bytes(&bytes[sig_at..]).into_iter().map(|h| h + sig_at));
+        hot.extend(
+            hot_of_bytes(&bytes[sig_at..])
+                .into_iter()
+                .map(|h| h + sig_at),
+        );
         self.push(
             "RegisterSignatureMessageDmq",
             "frame",
@@ -1017,7 +1304,9 @@ impl Builder {
             hot.clone(),
             vec![Entry {
                 name: "RegisterSignatureMessageDmq::try_from_bytes_vec",
-                dec: dec_bytes(m, |b| RegisterSignatureMessageDmq::try_from_bytes_vec(b)), route: Route::None }],
+                dec: dec_bytes(m, |b| RegisterSignatureMessageDmq::try_from_bytes_vec(b)),
+                route: Route::None,
+            }],
         );
         self.push(
             "RegisterSignatureMessageDmq",
@@ -1026,7 +1315,9 @@ impl Builder {
             hot_hex(&hot),
             vec![Entry {
                 name: "TryFromBytes::try_from_bytes_hex",
-                dec: dec_str(m, |s| RegisterSignatureMessageDmq::try_from_bytes_hex(s)), route: Route::None }],
+                dec: dec_str(m, |s| RegisterSignatureMessageDmq::try_from_bytes_hex(s)),
+                route: Route::None,
+            }],
         );
     }
 
@@ -1037,15 +1328,22 @@ impl Builder {
             "bytes",
             bytes.clone(),
             (0..bytes.len().min(32)).collect(),
-            vec![Entry { name: "TryFromBytes::try_from_bytes", dec: dec_bytes(t, |b| SignedEntityType::try_from_bytes(b)), route: Route::None }],
+            vec![Entry {
+                name: "TryFromBytes::try_from_bytes",
+                dec: dec_bytes(t, |b| SignedEntityType::try_from_bytes(b)),
+                route: Route::None,
+            }],
         );
     }
 
     fn certificate(&mut self, ty: &'static str, c: &Certificate) {
         let message: CertificateMessage = c.clone().try_into().expect("certificate to message");
         let doc = serde_json::to_vec(&message).expect("certificate message to JSON");
-        let mut needles: Vec<&str> =
-            vec![message.aggregate_verification_key.as_str(), message.multi_signature.as_str(), message.genesis_signature.as_str()];
+        let mut needles: Vec<&str> = vec![
+            message.aggregate_verification_key.as_str(),
+            message.multi_signature.as_str(),
+            message.genesis_signature.as_str(),
+        ];
         let strings = string_values(&to_value(&message));
         needles.extend(strings.iter().map(|s| s.as_str()));
         let hot = hot_in_doc(&doc, &needles, 32);
@@ -1059,7 +1357,13 @@ impl Builder {
             vec![
                 Entry {
                     name: "serde_json::from_slice",
-                    dec: dec_with(move |b| serde_json::from_slice::<CertificateMessage>(b).map(|d| d == honest).map_err(short)), route: Route::None },
+                    dec: dec_with(move |b| {
+                        serde_json::from_slice::<CertificateMessage>(b)
+                            .map(|d| d == honest)
+                            .map_err(short)
+                    }),
+                    route: Route::None,
+                },
                 Entry {
                     name: "serde_json::from_slice + Certificate::try_from(CertificateMessage)",
                     dec: dec_with(move |b| {
@@ -1067,7 +1371,9 @@ impl Builder {
                         let cert = Certificate::try_from(d.clone()).map_err(short)?;
                         let back: CertificateMessage = cert.try_into().map_err(short)?;
                         Ok(d == honest2 && back == honest2)
-                    }), route: Route::CertDoc },
+                    }),
+                    route: Route::CertDoc,
+                },
             ],
         );
     }
@@ -1081,10 +1387,18 @@ impl Builder {
             bytes.clone(),
             hot.clone(),
             vec![
-                Entry { name: "MKProof::from_bytes", dec: dec_bytes(p, |b| MKProof::from_bytes(b)), route: Route::None },
+                Entry {
+                    name: "MKProof::from_bytes",
+                    dec: dec_bytes(p, |b| MKProof::from_bytes(b)),
+                    route: Route::None,
+                },
                 Entry {
                     name: "ProtocolKey::from_bytes",
-                    dec: dec_bytes(&ProtocolKey::new(p.clone()), |b| ProtocolKey::<MKProof>::from_bytes(b)), route: Route::None },
+                    dec: dec_bytes(&ProtocolKey::new(p.clone()), |b| {
+                        ProtocolKey::<MKProof>::from_bytes(b)
+                    }),
+                    route: Route::None,
+                },
             ],
         );
         self.push(
@@ -1094,7 +1408,11 @@ impl Builder {
             hot_hex(&hot),
             vec![Entry {
                 name: "ProtocolKey::from_bytes_hex",
-                dec: dec_str(&ProtocolKey::new(p.clone()), |s| ProtocolKey::<MKProof>::from_bytes_hex(s)), route: Route::None }],
+                dec: dec_str(&ProtocolKey::new(p.clone()), |s| {
+                    ProtocolKey::<MKProof>::from_bytes_hex(s)
+                }),
+                route: Route::None,
+            }],
         );
         let json_hex = ProtocolKey::<MKProof>::key_to_json_hex(p).expect("json hex");
         self.push(
@@ -1104,14 +1422,22 @@ impl Builder {
             (0..64).collect(),
             vec![Entry {
                 name: "ProtocolKey::from_json_hex",
-                dec: dec_str(&ProtocolKey::new(p.clone()), |s| ProtocolKey::<MKProof>::from_json_hex(s)), route: Route::None }],
+                dec: dec_str(&ProtocolKey::new(p.clone()), |s| {
+                    ProtocolKey::<MKProof>::from_json_hex(s)
+                }),
+                route: Route::None,
+            }],
         );
         self.push(
             "MKProof",
             "json",
             serde_json::to_vec(p).expect("json"),
             vec![],
-            vec![Entry { name: "serde_json::from_slice", dec: dec_bytes(p, |b| serde_json::from_slice::<MKProof>(b)), route: Route::None }],
+            vec![Entry {
+                name: "serde_json::from_slice",
+                dec: dec_bytes(p, |b| serde_json::from_slice::<MKProof>(b)),
+                route: Route::None,
+            }],
         );
     }
 
@@ -1124,10 +1450,18 @@ impl Builder {
             bytes.clone(),
             hot.clone(),
             vec![
-                Entry { name: "MKMapProof::from_bytes", dec: dec_bytes(p, |b| MKMapProof::<BlockRange>::from_bytes(b)), route: Route::None },
+                Entry {
+                    name: "MKMapProof::from_bytes",
+                    dec: dec_bytes(p, |b| MKMapProof::<BlockRange>::from_bytes(b)),
+                    route: Route::None,
+                },
                 Entry {
                     name: "ProtocolMkProof::from_bytes",
-                    dec: dec_bytes(&ProtocolKey::new(p.clone()), |b| ProtocolMkProof::from_bytes(b)), route: Route::None },
+                    dec: dec_bytes(&ProtocolKey::new(p.clone()), |b| {
+                        ProtocolMkProof::from_bytes(b)
+                    }),
+                    route: Route::None,
+                },
             ],
         );
         self.push(
@@ -1137,9 +1471,15 @@ impl Builder {
             hot_hex(&hot),
             vec![Entry {
                 name: "ProtocolMkProof::from_bytes_hex",
-                dec: dec_str(&ProtocolKey::new(p.clone()), |s| ProtocolMkProof::from_bytes_hex(s)), route: Route::None }],
+                dec: dec_str(&ProtocolKey::new(p.clone()), |s| {
+                    ProtocolMkProof::from_bytes_hex(s)
+                }),
+                route: Route::None,
+            }],
         );
-        let json_hex = ProtocolMkProof::new(p.clone()).to_json_hex().expect("json hex");
+        let json_hex = ProtocolMkProof::new(p.clone())
+            .to_json_hex()
+            .expect("json hex");
         self.push(
             "MKMapProof",
             "json-hex",
@@ -1147,7 +1487,11 @@ impl Builder {
             (0..64).collect(),
             vec![Entry {
                 name: "ProtocolMkProof::from_json_hex",
-                dec: dec_str(&ProtocolKey::new(p.clone()), |s| ProtocolMkProof::from_json_hex(s)), route: Route::None }],
+                dec: dec_str(&ProtocolKey::new(p.clone()), |s| {
+                    ProtocolMkProof::from_json_hex(s)
+                }),
+                route: Route::None,
+            }],
         );
         self.push(
             "MKMapProof",
@@ -1156,13 +1500,19 @@ impl Builder {
             vec![],
             vec![Entry {
                 name: "serde_json::from_slice",
-                dec: dec_bytes(p, |b| serde_json::from_slice::<MKMapProof<BlockRange>>(b)), route: Route::None }],
+                dec: dec_bytes(p, |b| serde_json::from_slice::<MKMapProof<BlockRange>>(b)),
+                route: Route::None,
+            }],
         );
     }
 
     fn proofs_v1(&mut self, m: &CardanoTransactionsProofsMessage) {
         let doc = serde_json::to_vec(m).expect("proofs message to JSON");
-        let needles: Vec<&str> = m.certified_transactions.iter().map(|p| p.proof.as_str()).collect();
+        let needles: Vec<&str> = m
+            .certified_transactions
+            .iter()
+            .map(|p| p.proof.as_str())
+            .collect();
         let hot = hot_in_doc(&doc, &needles, 48);
         let honest = m.clone();
         self.push(
@@ -1174,21 +1524,30 @@ impl Builder {
                 // the decoding half of CardanoTransactionsProofsMessage::verify
                 name: "serde_json::from_slice + CardanoTransactionsSetProof::try_from(part)",
                 dec: dec_with(move |b| {
-                    let d = serde_json::from_slice::<CardanoTransactionsProofsMessage>(b).map_err(short)?;
+                    let d = serde_json::from_slice::<CardanoTransactionsProofsMessage>(b)
+                        .map_err(short)?;
                     let mut back = Vec::new();
                     for part in &d.certified_transactions {
-                        let proof: CardanoTransactionsSetProof = part.clone().try_into().map_err(short)?;
-                        let again: CardanoTransactionsSetProofMessagePart = proof.try_into().map_err(short)?;
+                        let proof: CardanoTransactionsSetProof =
+                            part.clone().try_into().map_err(short)?;
+                        let again: CardanoTransactionsSetProofMessagePart =
+                            proof.try_into().map_err(short)?;
                         back.push(again);
                     }
                     Ok(d == honest && back == honest.certified_transactions)
-                }), route: Route::None }],
+                }),
+                route: Route::None,
+            }],
         );
     }
 
     fn proofs_v2_transactions(&mut self, m: &CardanoTransactionsProofsV2Message) {
         let doc = serde_json::to_vec(m).expect("proofs v2 message to JSON");
-        let needles: Vec<&str> = m.certified_transactions.iter().map(|p| p.proof.as_str()).collect();
+        let needles: Vec<&str> = m
+            .certified_transactions
+            .iter()
+            .map(|p| p.proof.as_str())
+            .collect();
         let hot = hot_in_doc(&doc, &needles, 48);
         let honest = m.clone();
         self.push(
@@ -1199,22 +1558,31 @@ impl Builder {
             vec![Entry {
                 name: "serde_json::from_slice + MkSetProof::try_from(part)",
                 dec: dec_with(move |b| {
-                    let d = serde_json::from_slice::<CardanoTransactionsProofsV2Message>(b).map_err(short)?;
+                    let d = serde_json::from_slice::<CardanoTransactionsProofsV2Message>(b)
+                        .map_err(short)?;
                     let mut back = None;
                     if let Some(part) = &d.certified_transactions {
-                        let proof: MkSetProof<CardanoTransaction> = part.clone().try_into().map_err(short)?;
-                        let again: MkSetProofMessagePart<mithril_common::messages::CardanoTransactionMessagePart> =
-                            proof.try_into().map_err(short)?;
+                        let proof: MkSetProof<CardanoTransaction> =
+                            part.clone().try_into().map_err(short)?;
+                        let again: MkSetProofMessagePart<
+                            mithril_common::messages::CardanoTransactionMessagePart,
+                        > = proof.try_into().map_err(short)?;
                         back = Some(again);
                     }
                     Ok(d == honest && back == honest.certified_transactions)
-                }), route: Route::None }],
+                }),
+                route: Route::None,
+            }],
         );
     }
 
     fn proofs_v2_blocks(&mut self, m: &CardanoBlocksProofsMessage) {
         let doc = serde_json::to_vec(m).expect("block proofs message to JSON");
-        let needles: Vec<&str> = m.certified_blocks.iter().map(|p| p.proof.as_str()).collect();
+        let needles: Vec<&str> = m
+            .certified_blocks
+            .iter()
+            .map(|p| p.proof.as_str())
+            .collect();
         let hot = hot_in_doc(&doc, &needles, 48);
         let honest = m.clone();
         self.push(
@@ -1225,16 +1593,21 @@ impl Builder {
             vec![Entry {
                 name: "serde_json::from_slice + MkSetProof::try_from(part)",
                 dec: dec_with(move |b| {
-                    let d = serde_json::from_slice::<CardanoBlocksProofsMessage>(b).map_err(short)?;
+                    let d =
+                        serde_json::from_slice::<CardanoBlocksProofsMessage>(b).map_err(short)?;
                     let mut back = None;
                     if let Some(part) = &d.certified_blocks {
-                        let proof: MkSetProof<CardanoBlock> = part.clone().try_into().map_err(short)?;
-                        let again: MkSetProofMessagePart<mithril_common::messages::CardanoBlockMessagePart> =
-                            proof.try_into().map_err(short)?;
+                        let proof: MkSetProof<CardanoBlock> =
+                            part.clone().try_into().map_err(short)?;
+                        let again: MkSetProofMessagePart<
+                            mithril_common::messages::CardanoBlockMessagePart,
+                        > = proof.try_into().map_err(short)?;
                         back = Some(again);
                     }
                     Ok(d == honest && back == honest.certified_blocks)
-                }), route: Route::None }],
+                }),
+                route: Route::None,
+            }],
         );
     }
 
@@ -1255,7 +1628,9 @@ impl Builder {
                         .and_then(|d| d.to_bytes())
                         .map(|again| again == honest)
                         .map_err(short)
-                }), route: Route::None }],
+                }),
+                route: Route::None,
+            }],
             false,
         );
         let doc = serde_json::to_vec(init).expect("initializer json");
@@ -1268,8 +1643,12 @@ impl Builder {
             vec![Entry {
                 name: "serde_json::from_slice",
                 dec: dec_with(move |b| {
-                    serde_json::from_slice::<ProtocolInitializer>(b).map(|d| to_value(&d) == honest).map_err(short)
-                }), route: Route::None }],
+                    serde_json::from_slice::<ProtocolInitializer>(b)
+                        .map(|d| to_value(&d) == honest)
+                        .map_err(short)
+                }),
+                route: Route::None,
+            }],
             false,
         );
     }
@@ -1300,7 +1679,10 @@ fn signer_from_message(m: RegisterSignerMessage) -> anyhow::Result<Signer> {
             .verification_key_signature_for_concatenation
             .map(|s| s.try_into())
             .transpose()?,
-        operational_certificate: m.operational_certificate.map(|s| s.try_into()).transpose()?,
+        operational_certificate: m
+            .operational_certificate
+            .map(|s| s.try_into())
+            .transpose()?,
         kes_evolutions: m.kes_evolutions,
     })
 }
@@ -1316,8 +1698,11 @@ fn message_from_signer(epoch: Epoch, s: &Signer) -> anyhow::Result<RegisterSigne
             .as_ref()
             .map(|k| k.to_json_hex())
             .transpose()?,
-        operational_certificate: s.operational_certificate.as_ref().map(|k| k.to_json_hex()).transpose()?,
+        operational_certificate: s
+            .operational_certificate
+            .as_ref()
+            .map(|k| k.to_json_hex())
+            .transpose()?,
         kes_evolutions: s.kes_evolutions,
     })
 }
-
